@@ -1,730 +1,15 @@
 //! Sequential correspondence harness: executes cases of the shared case language (DESIGN §3.4)
 //! against the instrumented copy of /repo's current working tree and prints one canonical
 //! observation line per case — the same format `rxmodel` (Lean) prints.
+mod core;
 mod sexp;
 mod value;
 
-use another_rxrust::prelude::*;
 use another_rxrust::verif_facade as facade;
-use sexp::Sexp;
+use crate::core::*;
 use std::io::{BufRead, Write};
 use std::panic::{catch_unwind, AssertUnwindSafe};
-use std::sync::{Arc, Mutex};
 use value::*;
-
-#[derive(Clone)]
-enum Entry {
-  Obsv(Ob),
-  Subj(subjects::Subject<'static, V>),
-  BSubj(subjects::BehaviorSubject<'static, V>),
-  RSubj(subjects::ReplaySubject<'static, V>),
-  ASubj(subjects::AsyncSubject<'static, V>),
-  Publish(Arc<operators::Publish<'static, V>>, Arc<Mutex<Vec<Subscription<'static>>>>),
-  RefCount(Arc<operators::RefCount<'static, V>>),
-  Replay(Arc<operators::Replay<'static, V>>),
-  Counter(Arc<Mutex<usize>>),
-}
-
-impl Entry {
-  fn observable(&self) -> Option<Ob> {
-    Some(match self {
-      Entry::Obsv(o) => o.clone(),
-      Entry::Subj(s) => s.observable(),
-      Entry::BSubj(s) => s.observable(),
-      Entry::RSubj(s) => s.observable(),
-      Entry::ASubj(s) => s.observable(),
-      Entry::Publish(p, _) => p.observable(),
-      Entry::RefCount(p) => p.observable(),
-      Entry::Replay(p) => p.observable(),
-      Entry::Counter(_) => return None,
-    })
-  }
-  fn observer_count(&self) -> Option<usize> {
-    match self {
-      Entry::Subj(s) => Some(s.verif_observer_count()),
-      Entry::BSubj(s) => Some(s.verif_observer_count()),
-      Entry::RSubj(s) => Some(s.verif_observer_count()),
-      Entry::ASubj(s) => Some(s.verif_observer_count()),
-      Entry::Publish(p, _) => Some(p.verif_observer_count()),
-      Entry::RefCount(p) => Some(p.verif_observer_count()),
-      Entry::Replay(p) => Some(p.verif_observer_count()),
-      _ => None,
-    }
-  }
-}
-
-type Action = Arc<dyn Fn(usize) + Send + Sync>;
-
-struct User {
-  sub: Option<Subscription<'static>>,
-  events: usize,
-}
-
-#[derive(Default)]
-struct SharedInner {
-  trace: Vec<String>,
-  users: Vec<User>,
-  stash: Vec<Observer<'static, V>>,
-  env: Vec<(String, Entry)>,
-}
-
-#[derive(Clone)]
-struct Shared(Arc<Mutex<SharedInner>>);
-
-impl Shared {
-  fn new() -> Shared {
-    Shared(Arc::new(Mutex::new(SharedInner::default())))
-  }
-  fn lock(&self) -> std::sync::MutexGuard<'_, SharedInner> {
-    self.0.lock().unwrap_or_else(|e| e.into_inner())
-  }
-  fn rec(&self, s: String) {
-    self.lock().trace.push(s);
-  }
-  fn find(&self, name: &str) -> Option<Entry> {
-    self.lock().env.iter().find(|(n, _)| n == name).map(|(_, e)| e.clone())
-  }
-}
-
-// ---------------------------------------------------------------------------------------------
-// values, events, function families (must agree with lean/RxVerif/Data.lean)
-
-fn parse_data(e: &Sexp) -> Option<V> {
-  match e {
-    Sexp::Atom(s) => match s.as_str() {
-      "u" => Some(V::new(K::U)),
-      "T" => Some(V::boolean(true)),
-      "F" => Some(V::boolean(false)),
-      _ => s.parse::<i64>().ok().map(V::int),
-    },
-    Sexp::List(_) => {
-      let (h, args) = e.call()?;
-      match h {
-        "l" => Some(V::list(args.iter().map(parse_data).collect::<Option<Vec<_>>>()?)),
-        "p" if args.len() == 2 => Some(V::new(K::P(Box::new(parse_data(&args[0])?), Box::new(parse_data(&args[1])?)))),
-        _ => None,
-      }
-    }
-  }
-}
-
-#[derive(Clone)]
-enum Ev {
-  N(V),
-  E(i64),
-  C,
-}
-
-fn parse_ev(e: &Sexp) -> Option<Ev> {
-  if e.atom() == Some("c") {
-    return Some(Ev::C);
-  }
-  let (h, args) = e.call()?;
-  match (h, args.len()) {
-    ("n", 1) => Some(Ev::N(parse_data(&args[0])?)),
-    ("e", 1) => Some(Ev::E(args[0].int()?)),
-    _ => None,
-  }
-}
-
-fn mk_err(id: i64) -> RxError {
-  RxError::from_error(EP { id })
-}
-
-type F1 = Arc<dyn Fn(V) -> V + Send + Sync>;
-type P1 = Arc<dyn Fn(V) -> bool + Send + Sync>;
-type F2 = Arc<dyn Fn(V, V) -> V + Send + Sync>;
-
-fn emod(a: i64, k: i64) -> i64 {
-  a.rem_euclid(k)
-}
-
-fn parse_fn(e: &Sexp) -> Option<F1> {
-  let t = Tok::new(OP);
-  if let Some(a) = e.atom() {
-    return Some(match a {
-      "id" => Arc::new(move |x| { let _t = &t; x }),
-      "inc" => Arc::new(move |x: V| { let _t = &t; V::int(x.to_int() + 1) }),
-      "dbl" => Arc::new(move |x: V| { let _t = &t; V::int(x.to_int() * 2) }),
-      "neg" => Arc::new(move |x: V| { let _t = &t; V::int(-x.to_int()) }),
-      "isEven" => Arc::new(move |x: V| { let _t = &t; V::boolean(emod(x.to_int(), 2) == 0) }),
-      "toMat" => Arc::new(move |x: V| {
-        let _t = &t;
-        let i = x.to_int();
-        if i == 0 {
-          V::new(K::MC)
-        } else if i < 0 {
-          V::new(K::ME(mk_err(-i)))
-        } else {
-          V::new(K::MN(Box::new(x)))
-        }
-      }),
-      _ => return None,
-    });
-  }
-  let (h, args) = e.call()?;
-  let k = args.first()?.int()?;
-  Some(match h {
-    "add" => Arc::new(move |x: V| { let _t = &t; V::int(x.to_int() + k) }),
-    "mod" => Arc::new(move |x: V| { let _t = &t; V::int(emod(x.to_int(), k)) }),
-    "const" => Arc::new(move |_x: V| { let _t = &t; V::int(k) }),
-    _ => return None,
-  })
-}
-
-fn parse_pred(e: &Sexp) -> Option<P1> {
-  let t = Tok::new(OP);
-  if let Some(a) = e.atom() {
-    return Some(match a {
-      "tt" => Arc::new(move |_| { let _t = &t; true }),
-      "ff" => Arc::new(move |_| { let _t = &t; false }),
-      "even" => Arc::new(move |x: V| { let _t = &t; emod(x.to_int(), 2) == 0 }),
-      "odd" => Arc::new(move |x: V| { let _t = &t; emod(x.to_int(), 2) == 1 }),
-      _ => return None,
-    });
-  }
-  let (h, args) = e.call()?;
-  let k = args.first()?.int()?;
-  Some(match h {
-    "lt" => Arc::new(move |x: V| { let _t = &t; x.to_int() < k }),
-    "gt" => Arc::new(move |x: V| { let _t = &t; x.to_int() > k }),
-    "eq" => Arc::new(move |x: V| { let _t = &t; x.to_int() == k }),
-    "ne" => Arc::new(move |x: V| { let _t = &t; x.to_int() != k }),
-    _ => return None,
-  })
-}
-
-fn parse_fn2(e: &Sexp) -> Option<F2> {
-  let t = Tok::new(OP);
-  Some(match e.atom()? {
-    "add" => Arc::new(move |a: V, b: V| { let _t = &t; V::int(a.to_int() + b.to_int()) }),
-    "mul" => Arc::new(move |a: V, b: V| { let _t = &t; V::int(a.to_int() * b.to_int()) }),
-    "max" => Arc::new(move |a: V, b: V| { let _t = &t; V::int(if a.to_int() < b.to_int() { b.to_int() } else { a.to_int() }) }),
-    "fst" => Arc::new(move |a: V, _b: V| { let _t = &t; a }),
-    "snd" => Arc::new(move |_a: V, b: V| { let _t = &t; b }),
-    _ => return None,
-  })
-}
-
-fn parse_epred(e: &Sexp) -> Option<Arc<dyn Fn(RxError) -> bool + Send + Sync>> {
-  let t = Tok::new(OP);
-  let id = |e: &RxError| e.downcast_ref::<EP>().map(|p| p.id).unwrap_or(-1);
-  if let Some(a) = e.atom() {
-    return Some(match a {
-      "tt" => Arc::new(move |_| { let _t = &t; true }),
-      "ff" => Arc::new(move |_| { let _t = &t; false }),
-      _ => return None,
-    });
-  }
-  let (h, args) = e.call()?;
-  let k = args.first()?.int()?;
-  Some(match h {
-    "eq" => Arc::new(move |e: RxError| { let _t = &t; id(&e) == k }),
-    "lt" => Arc::new(move |e: RxError| { let _t = &t; id(&e) < k }),
-    _ => return None,
-  })
-}
-
-// ---------------------------------------------------------------------------------------------
-// instrumented sources
-
-fn emit_ev(s: &Observer<'static, V>, ev: &Ev) {
-  match ev {
-    Ev::N(v) => s.next(v.clone()),
-    Ev::E(id) => s.error(mk_err(*id)),
-    Ev::C => s.complete(),
-  }
-}
-
-fn script_source(sh: &Shared, tag: usize, polite: bool, evs: Vec<Ev>) -> Ob {
-  let sh = sh.clone();
-  Observable::create(move |s: Observer<'static, V>| {
-    sh.rec(format!("p{}+", tag));
-    sh.lock().stash.push(s.clone());
-    for ev in evs.iter() {
-      let b = s.is_subscribed();
-      sh.rec(format!("p{}?{}", tag, if b { "T" } else { "F" }));
-      if polite && !b {
-        break;
-      }
-      emit_ev(&s, ev);
-    }
-  })
-}
-
-fn flaky_source(sh: &Shared, tag: usize, counter: Arc<Mutex<usize>>, scripts: Vec<Vec<Ev>>) -> Ob {
-  let sh = sh.clone();
-  Observable::create(move |s: Observer<'static, V>| {
-    let n = {
-      let mut c = counter.lock().unwrap_or_else(|e| e.into_inner());
-      let n = *c;
-      *c += 1;
-      n
-    };
-    sh.rec(format!("p{}+", tag));
-    sh.lock().stash.push(s.clone());
-    let empty = Vec::new();
-    let evs = scripts.get(n).or(scripts.last()).unwrap_or(&empty);
-    for ev in evs.iter() {
-      let b = s.is_subscribed();
-      sh.rec(format!("p{}?{}", tag, if b { "T" } else { "F" }));
-      if !b {
-        break;
-      }
-      emit_ev(&s, ev);
-    }
-  })
-}
-
-// ---------------------------------------------------------------------------------------------
-// pipelines
-
-fn refob(sh: &Shared, name: &str) -> Option<Ob> {
-  // resolved at subscribe time, like `.observable()` evaluated once here: the Observable value of a
-  // subject is a stateless handle, so evaluating it at build time is equivalent
-  sh.find(name)?.observable()
-}
-
-fn parse_fm(sh: &Shared, e: &Sexp) -> Option<Arc<dyn Fn(V) -> Ob + Send + Sync>> {
-  let t = Tok::new(OP);
-  if let Some(a) = e.atom() {
-    return Some(match a {
-      "fm_just" => Arc::new(move |x| { let _t = &t; observables::just(x) }),
-      "fm_two" => Arc::new(move |x: V| { let _t = &t; observables::from_iter(vec![x.clone(), V::int(x.to_int() + 10)].into_iter()) }),
-      "fm_range" => Arc::new(move |x: V| { let _t = &t; observables::range(0, emod(x.to_int(), 3)).map(V::int) }),
-      "fm_empty" => Arc::new(move |_| { let _t = &t; observables::empty() }),
-      "fm_never" => Arc::new(move |_| { let _t = &t; observables::never() }),
-      _ => return None,
-    });
-  }
-  let (h, args) = e.call()?;
-  match h {
-    "fm_err" => {
-      let k = args.first()?.int()?;
-      Some(Arc::new(move |x: V| { let _t = &t; if x.to_int() == k { observables::error(mk_err(77)) } else { observables::just(x) } }))
-    }
-    "fm_ref" => {
-      let obs = args.iter().map(|n| n.atom().and_then(|n| refob(sh, n))).collect::<Option<Vec<_>>>()?;
-      if obs.is_empty() {
-        return None;
-      }
-      Some(Arc::new(move |x: V| { let _t = &t; obs[emod(x.to_int(), obs.len() as i64) as usize].clone() }))
-    }
-    _ => None,
-  }
-}
-
-fn parse_rs(sh: &Shared, e: &Sexp) -> Option<Arc<dyn Fn(RxError) -> Ob + Send + Sync>> {
-  let t = Tok::new(OP);
-  if let Some(a) = e.atom() {
-    return Some(match a {
-      "rs_empty" => Arc::new(move |_| { let _t = &t; observables::empty() }),
-      "rs_same" => Arc::new(move |e: RxError| { let _t = &t; observables::error(e) }),
-      "rs_payload" => Arc::new(move |e: RxError| { let _t = &t; observables::just(V::int(e.downcast_ref::<EP>().map(|p| p.id).unwrap_or(-1))) }),
-      _ => return None,
-    });
-  }
-  let (h, args) = e.call()?;
-  match h {
-    "rs_just" => {
-      let k = args.first()?.int()?;
-      Some(Arc::new(move |_| { let _t = &t; observables::just(V::int(k)) }))
-    }
-    "rs_err" => {
-      let k = args.first()?.int()?;
-      Some(Arc::new(move |_| { let _t = &t; observables::error(mk_err(k)) }))
-    }
-    "rs_ref" => {
-      let o = refob(sh, args.first()?.atom()?)?;
-      Some(Arc::new(move |_| { let _t = &t; o.clone() }))
-    }
-    "rs_iter" => {
-      let vs = args.iter().map(parse_data).collect::<Option<Vec<_>>>()?;
-      Some(Arc::new(move |_| { let _t = &t; observables::from_iter(vs.clone().into_iter()) }))
-    }
-    _ => None,
-  }
-}
-
-fn to_material(v: V) -> Material<V> {
-  match v.k {
-    K::MN(d) => Material::Next(*d),
-    K::ME(e) => Material::Error(e),
-    K::MC => Material::Complete,
-    _ => Material::Next(V::new(K::U)),
-  }
-}
-fn from_material(m: Material<V>) -> V {
-  match m {
-    Material::Next(d) => V::new(K::MN(Box::new(d))),
-    Material::Error(e) => V::new(K::ME(e)),
-    Material::Complete => V::new(K::MC),
-  }
-}
-
-fn pipes(sh: &Shared, es: &[Sexp]) -> Option<Vec<Ob>> {
-  es.iter().map(|e| pipe(sh, e)).collect()
-}
-
-fn pipe(sh: &Shared, e: &Sexp) -> Option<Ob> {
-  let (h, a) = e.call()?;
-  let last = || a.last().and_then(|p| pipe(sh, p));
-  Some(match (h, a.len()) {
-    ("just", 1) => observables::just(parse_data(&a[0])?),
-    ("from_iter", _) => observables::from_iter(a.iter().map(parse_data).collect::<Option<Vec<_>>>()?.into_iter()),
-    ("range", 2) => observables::range(a[0].int()?, a[1].int()?).map(V::int),
-    ("empty", 0) => observables::empty(),
-    ("never", 0) => observables::never(),
-    ("error", 1) => observables::error(mk_err(a[0].int()?)),
-    ("repeat", 1) => observables::repeat(parse_data(&a[0])?),
-    ("start", 1) => {
-      let v = parse_data(&a[0])?;
-      observables::start(move || v.clone())
-    }
-    ("defer", 1) => {
-      let o = pipe(sh, &a[0])?;
-      observables::defer(move || o.clone())
-    }
-    ("from_result_ok", 1) => observables::from_result::<V, EP>(Ok(parse_data(&a[0])?)),
-    ("from_result_err", 1) => observables::from_result::<V, EP>(Err(EP { id: a[0].int()? })),
-    ("cold", _) => script_source(sh, a[0].nat()?, true, a[1..].iter().map(parse_ev).collect::<Option<Vec<_>>>()?),
-    ("rude", _) => script_source(sh, a[0].nat()?, false, a[1..].iter().map(parse_ev).collect::<Option<Vec<_>>>()?),
-    ("flaky", _) => {
-      let counter = match sh.find(a[1].atom()?)? {
-        Entry::Counter(c) => c,
-        _ => return None,
-      };
-      let scripts = a[2..].iter().map(|s| s.list().and_then(|l| l.iter().map(parse_ev).collect::<Option<Vec<_>>>())).collect::<Option<Vec<_>>>()?;
-      flaky_source(sh, a[0].nat()?, counter, scripts)
-    }
-    ("ref", 1) => refob(sh, a[0].atom()?)?,
-    ("map", 2) => {
-      let f = parse_fn(&a[0])?;
-      last()?.map(move |x| f(x))
-    }
-    ("filter", 2) => {
-      let f = parse_pred(&a[0])?;
-      last()?.filter(move |x| f(x))
-    }
-    ("take", 2) => last()?.take(a[0].nat()?),
-    ("skip", 2) => last()?.skip(a[0].nat()?),
-    ("take_while", 2) => {
-      let f = parse_pred(&a[0])?;
-      last()?.take_while(move |x| f(x))
-    }
-    ("skip_while", 2) => {
-      let f = parse_pred(&a[0])?;
-      last()?.skip_while(move |x| f(x))
-    }
-    ("take_last", 2) => last()?.take_last(a[0].nat()?),
-    ("skip_last", 2) => last()?.skip_last(a[0].nat()?),
-    ("first", 1) => last()?.first(),
-    ("last", 1) => last()?.last(),
-    ("element_at", 2) => last()?.element_at(a[0].nat()?),
-    ("distinct_until_changed", 1) => last()?.distinct_until_changed(),
-    ("scan", 2) => {
-      let f = parse_fn2(&a[0])?;
-      last()?.scan(move |(x, y)| f(x, y))
-    }
-    ("reduce", 2) => {
-      let f = parse_fn2(&a[0])?;
-      last()?.reduce(move |(x, y)| f(x, y))
-    }
-    ("count", 1) => last()?.count().map(|n| V::int(n as i64)),
-    ("sum", 1) => last()?.sum(),
-    ("min", 1) => last()?.min(),
-    ("max", 1) => last()?.max(),
-    ("sum_and_count", 1) => last()?.sum_and_count().map(|(s, n)| V::new(K::P(Box::new(s), Box::new(V::int(n as i64))))),
-    ("all", 2) => {
-      let f = parse_pred(&a[0])?;
-      last()?.all(move |x| f(x)).map(V::boolean)
-    }
-    ("contains", 2) => last()?.contains(parse_data(&a[0])?).map(V::boolean),
-    ("default_if_empty", 2) => last()?.default_if_empty(parse_data(&a[0])?),
-    ("ignore_elements", 1) => last()?.ignore_elements(),
-    ("start_with", 2) => {
-      let (h, vs) = a[0].call()?;
-      if h != "l" {
-        return None;
-      }
-      let vs = vs.iter().map(parse_data).collect::<Option<Vec<_>>>()?;
-      last()?.start_with(vs.into_iter())
-    }
-    ("buffer_with_count", 2) => last()?.buffer_with_count(a[0].nat()?).map(V::list),
-    ("materialize", 1) => last()?.materialize().map(from_material),
-    ("dematerialize", 1) => last()?.map(to_material).dematerialize(),
-    ("map_to_any", 1) => last()?.map_to_any().map(|x| x.downcast_ref::<V>().cloned().unwrap_or(V::new(K::U))),
-    ("tap", 2) => {
-      let tag = a[0].nat()?;
-      let (s1, s2, s3) = (sh.clone(), sh.clone(), sh.clone());
-      last()?.tap(
-        move |x: V| s1.rec(format!("t{}:n{}", tag, x.show())),
-        move |e| s2.rec(format!("t{}:e{}", tag, err_id(&e))),
-        move || s3.rec(format!("t{}:c", tag)),
-      )
-    }
-    ("merge", _) => pipe(sh, &a[0])?.merge(&pipes(sh, &a[1..])?),
-    ("concat", _) => pipe(sh, &a[0])?.concat(&pipes(sh, &a[1..])?),
-    ("zip", _) => pipe(sh, &a[0])?.zip(&pipes(sh, &a[1..])?).map(V::list),
-    ("amb", _) => pipe(sh, &a[0])?.amb(&pipes(sh, &a[1..])?),
-    ("combine_latest", _) => {
-      let f = parse_fn2(&a[0])?;
-      pipe(sh, &a[1])?.combine_latest(&pipes(sh, &a[2..])?, move |xs: Vec<V>| {
-        let mut it = xs.into_iter();
-        let first = it.next().unwrap_or(V::new(K::U));
-        it.fold(first, |acc, x| f(acc, x))
-      })
-    }
-    ("sequence_equal", _) => pipe(sh, &a[0])?.sequence_equal(&pipes(sh, &a[1..])?).map(V::boolean),
-    ("take_until", 2) => pipe(sh, &a[0])?.take_until(pipe(sh, &a[1])?),
-    ("skip_until", 2) => pipe(sh, &a[0])?.skip_until(pipe(sh, &a[1])?),
-    ("sample", 2) => pipe(sh, &a[0])?.sample(pipe(sh, &a[1])?),
-    ("switch_on_next", 2) => pipe(sh, &a[0])?.switch_on_next(pipe(sh, &a[1])?),
-    ("flat_map", 2) => {
-      let f = parse_fm(sh, &a[0])?;
-      last()?.flat_map(move |x| f(x))
-    }
-    ("retry", 2) => last()?.retry(a[0].nat()?),
-    ("retry_when", 2) => {
-      let f = parse_epred(&a[0])?;
-      last()?.retry_when(move |e| f(e))
-    }
-    ("on_error_resume_next", 2) => {
-      let f = parse_rs(sh, &a[0])?;
-      last()?.on_error_resume_next(move |e| f(e))
-    }
-    ("window_with_count", 2) => last()?.window_with_count(a[0].nat()?).map(|o| V::new(K::O(o))),
-    ("group_by", 2) => {
-      let f = parse_fn(&a[0])?;
-      last()?.group_by(move |x| f(x).to_int()).map(|o| V::new(K::O(o)))
-    }
-    _ => return None,
-  })
-}
-
-// ---------------------------------------------------------------------------------------------
-// users and reactions
-
-fn subject_action(sh: &Shared, e: &Sexp) -> Option<Action> {
-  let (h, a) = e.call()?;
-  let ent = sh.find(a.first()?.atom()?)?;
-  match h {
-    "hnext" => {
-      let v = parse_data(a.get(1)?)?;
-      Some(Arc::new(move |_| match &ent {
-        Entry::Subj(s) => s.next(v.clone()),
-        Entry::BSubj(s) => s.next(v.clone()),
-        Entry::RSubj(s) => s.next(v.clone()),
-        Entry::ASubj(s) => s.next(v.clone()),
-        _ => {}
-      }))
-    }
-    "hcomplete" => Some(Arc::new(move |_| match &ent {
-      Entry::Subj(s) => s.complete(),
-      Entry::BSubj(s) => s.complete(),
-      Entry::RSubj(s) => s.complete(),
-      Entry::ASubj(s) => s.complete(),
-      _ => {}
-    })),
-    "herror" => {
-      let id = a.get(1)?.int()?;
-      Some(Arc::new(move |_| match &ent {
-        Entry::Subj(s) => s.error(mk_err(id)),
-        Entry::BSubj(s) => s.error(mk_err(id)),
-        Entry::RSubj(s) => s.error(mk_err(id)),
-        Entry::ASubj(s) => s.error(mk_err(id)),
-        _ => {}
-      }))
-    }
-    _ => None,
-  }
-}
-
-fn user_unsub(sh: &Shared, s: usize) {
-  let sub = sh.lock().users.get(s).and_then(|u| u.sub.clone());
-  if let Some(sub) = sub {
-    sub.unsubscribe();
-  }
-}
-
-fn parse_action(sh: &Shared, e: &Sexp) -> Option<Action> {
-  if e.atom() == Some("unsub") {
-    let sh = sh.clone();
-    return Some(Arc::new(move |me| user_unsub(&sh, me)));
-  }
-  let (h, a) = e.call()?;
-  if h == "unsub" {
-    let s = a.first()?.nat()?;
-    let sh = sh.clone();
-    return Some(Arc::new(move |_| user_unsub(&sh, s)));
-  }
-  subject_action(sh, e)
-}
-
-fn parse_react(sh: &Shared, e: &Sexp) -> Option<Vec<(usize, Action)>> {
-  let (h, items) = e.call()?;
-  if h != "react" {
-    return None;
-  }
-  items
-    .iter()
-    .map(|it| {
-      let l = it.list()?;
-      Some((l.first()?.nat()?, parse_action(sh, l.get(1)?)?))
-    })
-    .collect()
-}
-
-fn user_subscribe(sh: &Shared, o: &Ob, react: Vec<(usize, Action)>) {
-  let me = {
-    let mut g = sh.lock();
-    g.users.push(User { sub: None, events: 0 });
-    g.users.len() - 1
-  };
-  let react = Arc::new(react);
-  let tok = Tok::new(USER);
-  let on_event = {
-    let sh = sh.clone();
-    let react = react.clone();
-    Arc::new(move |text: String, child: Option<Ob>| {
-      let _t = &tok;
-      let idx = {
-        let mut g = sh.lock();
-        g.trace.push(format!("s{}:{}", me, text));
-        let idx = g.users[me].events;
-        g.users[me].events += 1;
-        idx
-      };
-      if let Some(c) = child {
-        user_subscribe(&sh, &c, Vec::new());
-      }
-      for (i, act) in react.iter() {
-        if *i == idx {
-          act(me);
-        }
-      }
-    })
-  };
-  let (e1, e2, e3) = (on_event.clone(), on_event.clone(), on_event.clone());
-  drop(on_event);
-  let sub = o.subscribe(
-    move |v: V| {
-      let child = match &v.k {
-        K::O(o) => Some(o.clone()),
-        _ => None,
-      };
-      e1(format!("n{}", v.show()), child)
-    },
-    move |e: RxError| e2(format!("e{}", err_id(&e)), None),
-    move || e3("c".to_string(), None),
-  );
-  sh.lock().users[me].sub = Some(sub);
-}
-
-// ---------------------------------------------------------------------------------------------
-// steps
-
-fn step(sh: &Shared, e: &Sexp) -> Option<()> {
-  let (h, a) = e.call()?;
-  match h {
-    "subject" => {
-      let name = a[0].atom()?.to_string();
-      let ent = match a[1].atom()? {
-        "plain" => Entry::Subj(subjects::Subject::new()),
-        "async" => Entry::ASubj(subjects::AsyncSubject::new()),
-        "behavior" => Entry::BSubj(subjects::BehaviorSubject::new(parse_data(a.get(2)?)?)),
-        "replay" => Entry::RSubj(subjects::ReplaySubject::new()),
-        _ => return None,
-      };
-      sh.lock().env.push((name, ent));
-    }
-    "counter" => {
-      let name = a[0].atom()?.to_string();
-      sh.lock().env.push((name, Entry::Counter(Arc::new(Mutex::new(0)))));
-    }
-    "def" => {
-      let name = a[0].atom()?.to_string();
-      let o = pipe(sh, &a[1])?;
-      sh.lock().env.push((name, Entry::Obsv(o)));
-    }
-    "conn" => {
-      let name = a[0].atom()?.to_string();
-      let o = pipe(sh, &a[2])?;
-      let ent = match a[1].atom()? {
-        "publish" => Entry::Publish(Arc::new(o.publish()), Arc::new(Mutex::new(Vec::new()))),
-        "ref_count" => Entry::RefCount(Arc::new(o.ref_count())),
-        "replay" => Entry::Replay(Arc::new(o.replay())),
-        _ => return None,
-      };
-      sh.lock().env.push((name, ent));
-    }
-    "sub" => {
-      let o = pipe(sh, &a[0])?;
-      let r = parse_react(sh, &a[1])?;
-      user_subscribe(sh, &o, r);
-    }
-    "unsub" => user_unsub(sh, a[0].nat()?),
-    "connect" => match sh.find(a[0].atom()?)? {
-      Entry::Publish(p, conns) => {
-        let c = p.connect();
-        conns.lock().unwrap_or_else(|e| e.into_inner()).push(c);
-      }
-      _ => return None,
-    },
-    "disconnect" => match sh.find(a[0].atom()?)? {
-      Entry::Publish(_, conns) => {
-        let cs: Vec<_> = conns.lock().unwrap_or_else(|e| e.into_inner()).clone();
-        for c in cs {
-          c.unsubscribe();
-        }
-      }
-      _ => return None,
-    },
-    "drop" => {
-      let (env, users, stash) = {
-        let mut g = sh.lock();
-        (std::mem::take(&mut g.env), std::mem::take(&mut g.users), std::mem::take(&mut g.stash))
-      };
-      drop(env);
-      drop(stash);
-      // keep the user slots (ids stay valid) but let go of the handles
-      let n = users.len();
-      drop(users);
-      let mut g = sh.lock();
-      for _ in 0..n {
-        g.users.push(User { sub: None, events: 0 });
-      }
-    }
-    "hnext" | "hcomplete" | "herror" => {
-      let act = subject_action(sh, e)?;
-      act(0);
-    }
-    _ => return None,
-  }
-  Some(())
-}
-
-fn observe(sh: &Shared, before: usize, status: &str, dropped: bool) -> String {
-  let (recs, subs, stash, env) = {
-    let g = sh.lock();
-    (
-      g.trace[before.min(g.trace.len())..].to_vec(),
-      g.users.iter().map(|u| u.sub.clone()).collect::<Vec<_>>(),
-      g.stash.clone(),
-      g.env.clone(),
-    )
-  };
-  let ok = status == "ok";
-  let flag = |b: bool| if b { "T" } else { "F" };
-  let s: String = if ok { subs.iter().map(|s| flag(s.as_ref().map(|s| s.is_subscribed()).unwrap_or(false))).collect() } else { String::new() };
-  let l: String = if ok { stash.iter().map(|o| flag(o.is_subscribed())).collect() } else { String::new() };
-  let o: Vec<String> = if ok { env.iter().filter_map(|(_, e)| e.observer_count()).map(|n| n.to_string()).collect() } else { Vec::new() };
-  let mut line = format!("{} ; S={} L={} O={} st={}", recs.join(" "), s, l, o.join(","), status);
-  if dropped {
-    line.push_str(&format!(" #tok u={} o={} i={}", live(USER), live(OP), live(ITEM)));
-  }
-  line
-}
 
 fn run_case(line: &str, budget: u64) -> String {
   let e = match sexp::parse(line) {
